@@ -43,6 +43,19 @@ class Obj:
         return f"Obj({self._clsname})"
 
 
+class ModelIter:
+    """a one-shot iterator object (`iter(x)`, `islice(it, n)`, `iter(callable, sentinel)`): consumed lazily, shared by reference"""
+
+    def __init__(self, py):
+        self.py = py
+
+    def __iter__(self):
+        return self.py
+
+    def __next__(self):
+        return next(self.py)
+
+
 class FixedArray:
     """A fixed-length ctypes-like array field: index and slice stores, length-checked like ctypes."""
 
@@ -241,7 +254,7 @@ class Interp:
                             continue
                         if len(it) != n0:
                             raise ModelRaise("RuntimeError(set changed size during iteration)")
-                elif isinstance(it, (tuple, range)):
+                elif isinstance(it, (tuple, range, ModelIter)):
                     for x in it:
                         self.assign(st.target, x, env)
                         try:
@@ -383,6 +396,8 @@ class Interp:
                     return base.get(e.attr)
                 if fi is not None:
                     return ("bound", fi, base)
+                if base._clsname == "ContextVar" and e.attr in ("get", "set", "reset"):
+                    return ("ctxvar", base, e.attr)
                 self.fail(e, f"attribute {e.attr} of {base._clsname} not modelled")
             if isinstance(base, (set, list, dict, defaultdict)):
                 return ("cmeth", base, e.attr)
@@ -472,6 +487,8 @@ class Interp:
             v = self.eval(e.value, env)
             env[e.target.id] = v
             return v
+        if isinstance(e, ast.Lambda) and not e.args.args and not e.args.vararg and not e.args.kwarg:
+            return ("lambda", e, env)  # closure over the live environment (late binding, like Python)
         if isinstance(e, ast.GeneratorExp) and len(e.generators) == 1:
             return self.eval(ast.ListComp(elt=e.elt, generators=e.generators), env)
         if isinstance(e, ast.ListComp) and len(e.generators) == 1 and not e.generators[0].is_async:
@@ -563,6 +580,10 @@ class Interp:
             ce = self.const_env.get(nm)
             if nm in env and isinstance(env[nm], tuple) and env[nm] and env[nm][0] in ("class", "pyfunc"):
                 ce = env[nm]  # a class / function held in a local (`msg_cls, adding, pausing = TABLE[word]; msg_cls()`)
+            if ce is None and nm not in env:
+                mod_ = getattr(env.get("__func__"), "module", None)
+                if mod_ is not None and nm in getattr(mod_, "classes", {}):
+                    ce = ("class", mod_.classes[nm])  # a class of the module the current function lives in
             if isinstance(ce, tuple) and ce and ce[0] == "class":
                 if self.construct is None:
                     # same default as for `cd.MDF_X()`: an object of that class
@@ -588,6 +609,27 @@ class Interp:
                 # next(<generator expression>, default): the generator was evaluated eagerly (its conditions have no side effects
                 # in the vocabulary), the first element is what next() would produce
                 return args[0][0] if args[0] else args[1]
+            if nm == "iter" and len(args) == 1 and isinstance(args[0], (list, tuple, ModelIter)):
+                return args[0] if isinstance(args[0], ModelIter) else ModelIter(iter(list(args[0])))
+            if nm == "iter" and len(args) == 2 and isinstance(args[0], tuple) and args[0] and args[0][0] == "lambda":
+                lam, lenv = args[0][1], args[0][2]
+                sentinel = args[1]
+
+                def gen(lam=lam, lenv=lenv, sentinel=sentinel):
+                    for _ in range(100000):
+                        v = self.eval(lam.body, dict(lenv))
+                        if v == sentinel:
+                            return
+                        yield v
+                    self.fail(e, "unbounded iter(callable, sentinel)")
+
+                return ModelIter(gen())
+            if nm == "islice" and len(args) in (2, 3) and isinstance(args[0], (list, tuple, ModelIter)) and all(isinstance(a, int) or a is None for a in args[1:]):
+                import itertools as _it
+                return ModelIter(_it.islice(iter(args[0]) if not isinstance(args[0], ModelIter) else args[0].py, *args[1:]))
+            if nm in ("list", "tuple") and args and isinstance(args[0], ModelIter):
+                vs = list(args[0].py)
+                return vs if nm == "list" else tuple(vs)
             if nm == "set":
                 return set(args[0]) if args else set()
             if nm == "frozenset":
@@ -600,6 +642,9 @@ class Interp:
                 return len(args[0])
             if nm == "enumerate":
                 start = kwargs.get("start", args[1] if len(args) > 1 else 0)
+                if isinstance(args[0], ModelIter):
+                    # lazily: the body of the loop may consume the iterator underneath
+                    return ModelIter(((i + start, x) for i, x in enumerate(args[0].py)))
                 return [(i + start, x) for i, x in enumerate(list(args[0]))]
             if nm == "range" and all(isinstance(a, int) and not isinstance(a, bool) for a in args) and 1 <= len(args) <= 3:
                 return list(range(*args))
@@ -633,6 +678,18 @@ class Interp:
                     if not isinstance(frame, Obj):
                         self.fail(e, "from_buffer of a non-frame")
                     return Obj(cls, cls.name, msg_type=frame.get("msg_type"))
+                if kind == "ctxvar":
+                    var, meth = tgt[1], tgt[2]
+                    if meth == "get":
+                        return var.get("value")
+                    if meth == "set" and len(args) == 1:
+                        tok = ("token", var, var.get("value"))
+                        var.set("value", args[0])
+                        return tok
+                    if meth == "reset" and len(args) == 1 and isinstance(args[0], tuple) and args[0][0] == "token" and args[0][1] is var:
+                        var.set("value", args[0][2])
+                        return None
+                    self.fail(e, f"ContextVar.{meth}")
                 if kind == "bound":
                     fi, selfobj = tgt[1], tgt[2]
                     if fi.name in self.intercept:
